@@ -25,11 +25,16 @@ Local Open Scope Z_scope.
 
 (* ------------------------------------------------------------------ outcomes *)
 Inductive eerr := ETypeError | EValueError | EAssertionError | EIndexError | EBadCase.
-Inductive outcome (A : Type) := Done (a : A) | Raise (e : eerr).
+(* Done a: returned normally, the tree is a.  Raise e: exception e, nothing changed.
+   Partial e a: exception e raised after the tree had already been changed to a (only
+   replace can do that: holder.insert(holder.remove(x), ...) removes before it inserts). *)
+Inductive outcome (A : Type) := Done (a : A) | Raise (e : eerr) | Partial (e : eerr) (a : A).
 Arguments Done {A} a.
 Arguments Raise {A} e.
+Arguments Partial {A} e a.
+(* Partial is only ever produced by the last stage of an operation, never bound further *)
 Definition obind {A B} (r : outcome A) (f : A -> outcome B) : outcome B :=
-  match r with Done a => f a | Raise e => Raise e end.
+  match r with Done a => f a | Raise e => Raise e | Partial e _ => Raise e end.
 
 (* ---------------------------------------------------------------- addressing *)
 Inductive step := SArg (i : nat) | SBody (i : nat).
@@ -252,9 +257,13 @@ Fixpoint index_of {A} (f : A -> bool) (l : list A) : option nat :=
   end.
 
 (* -------------------------------------------------------------------- TexExpr *)
-(* TexCmd._supports_contents: name == 'item'; every other class: True *)
+(* TexCmd._supports_contents: self.name == 'item' or bool(self._contents); every other
+   class: True *)
 Definition supports (e : expr) : bool :=
-  match e with ECmd n _ _ _ => str_eqb n s_item | _ => true end.
+  match e with
+  | ECmd n _ b _ => str_eqb n s_item || match b with [] => false | _ :: _ => true end
+  | _ => true
+  end.
 
 (* `c == x` for an element c of a raw list and a TexCmd/TexEnv x that is another object:
    TexExpr.__eq__ compares str(); TexText.__eq__ answers False; a bare Token or str defers
@@ -331,7 +340,14 @@ Definition remove (root : expr) (thp : path) (ti : nat) : outcome expr :=
 Definition replace_in (root : expr) (hp : path) (h : expr) (thp : path) (ti : nat) (x : expr)
            (new : list expr) : outcome expr :=
   obind (expr_remove eq_expr_item hp h thp ti x) (fun kh =>
-  obind (expr_insert (snd kh) (Z.of_nat (fst kh)) new) (fun h'' => put_o root hp h'')).
+  match expr_insert (snd kh) (Z.of_nat (fst kh)) new with
+  | Done h'' => put_o root hp h''
+  | Raise e =>
+    (* the removal has happened: a command that is not \item and whose only content was
+       the child no longer supports contents when insert checks *)
+    match put root hp (snd kh) with Some r => Partial e r | None => Raise EBadCase end
+  | Partial e _ => Raise e
+  end).
 Definition replace_via (root : expr) (pp thp : path) (ti : nat) (new : list expr) : outcome expr :=
   match get root pp, get root (thp ++ [SBody ti]) with
   | Some P, Some x =>
@@ -489,7 +505,7 @@ Definition has_args (e : expr) : bool :=
 (* the operation is aimed at something that exists and that the operation is for *)
 Definition holder_ok (t : expr) (hp : path) (i : nat) : bool :=
   match get t hp with
-  | Some h => (Nat.ltb i (length (body_of h))) && supports h && arg_depth_ok hp
+  | Some h => (Nat.ltb i (length (body_of h))) && arg_depth_ok hp
   | None => false
   end.
 Definition ends_in_arg (hp : path) : bool :=
@@ -498,7 +514,13 @@ Definition op_ok (t : expr) (o : op) : bool :=
   match o with
   | ODelete hp i => holder_ok t hp i
   | ORemove hp i => holder_ok t hp i && negb (ends_in_arg hp)
-  | OReplaceWith hp i _ => holder_ok t hp i
+  | OReplaceWith hp i _ =>
+    (* the holder still accepts contents once the child is taken out *)
+    holder_ok t hp i
+    && match get t hp with
+       | Some h => supports (set_body h (splice i 1 [] (body_of h)))
+       | None => false
+       end
   | OInsert np i _ =>
     match get t np with
     | Some h => is_node h && supports h && Nat.leb i (length (body_of h))
@@ -533,7 +555,7 @@ Fixpoint ops_ok (t : expr) (ops : list op) : Prop :=
 Fixpoint ops_okb (t : expr) (ops : list op) : bool :=
   match ops with
   | [] => true
-  | o :: r => op_ok t o && match apply_op t o with Done t' => ops_okb t' r | Raise _ => false end
+  | o :: r => op_ok t o && match apply_op t o with Done t' => ops_okb t' r | _ => false end
   end.
 
 (* ----------------------------------------------------- reference document model *)
@@ -827,6 +849,7 @@ Fixpoint run_loop (fuel : nat) (donor root : expr) (l : zs) : zs :=
       | None => [-2]
       | Some (Done root', rest) => emit 0 root' ++ run_loop f donor root' rest
       | Some (Raise e, rest) => emit (code_of e) root ++ run_loop f donor root rest
+      | Some (Partial e root', rest) => emit (code_of e) root' ++ run_loop f donor root' rest
       end
     end
   end.
